@@ -1,63 +1,66 @@
 /-! Prototype for C05/C13, generalised from Atomic.lean: threads run *programs* whose next block depends on what the
     previous block read (the `Exec` trees of the design). Strict two-phase locking per block ⇒ every micro-step
-    execution is simulated by atomic block execution, remaining programs (hence replies) included. Core Lean only. -/
+    execution is simulated by atomic block execution, remaining programs (hence replies) included. Core Lean only.
+
+    Keys and values are arbitrary types (`K` with decidable equality, `V` inhabited — the initial content of a thread's private
+    snapshot): `Conc2`/`Conc3` instantiate `K := Nat`, `V := Nat` (counters), `Props/C05Atomic.lean` instantiates `K := Bytes`,
+    `V := Option Exec.Entry` (the real command table). -/
 namespace Cc
-abbrev Key := Nat
 inductive Mode | R | W deriving DecidableEq
 
 /-- one locked block of a program of type `P`: what it writes and how the program continues, both as functions of
     the database it sees -/
-structure Block (P : Type) where
+structure Block (K V P : Type) where
   mode : Mode
-  keys : List Key
-  body : (Key → Nat) → List (Key × Nat)
-  next : (Key → Nat) → P
+  keys : List K
+  body : (K → V) → List (K × V)
+  next : (K → V) → P
 
 /-- discipline of a block: writes only to its own keys and only in W mode; depends only on its keys -/
-structure Block.WF {P : Type} (b : Block P) : Prop where
-  local_  : ∀ s s' : Key → Nat, (∀ k ∈ b.keys, s k = s' k) → b.body s = b.body s' ∧ b.next s = b.next s'
+structure Block.WF {K V P : Type} (b : Block K V P) : Prop where
+  local_  : ∀ s s' : K → V, (∀ k ∈ b.keys, s k = s' k) → b.body s = b.body s' ∧ b.next s = b.next s'
   writes  : ∀ s kv, kv ∈ b.body s → kv.1 ∈ b.keys ∧ b.mode = .W
 
-variable {P : Type}
+variable {K : Type} [DecidableEq K] {V : Type} [Inhabited V] {P : Type}
 
-inductive Phase (P : Type)
+inductive Phase (K V P : Type)
 | idle      (p : P)
-| acquiring (b : Block P) (held : List Key) (todo : List Key)
-| reading   (b : Block P) (toRead : List Key) (snap : Key → Nat)
-| writing   (b : Block P) (pending : List (Key × Nat)) (cont : P)
+| acquiring (b : Block K V P) (held : List K) (todo : List K)
+| reading   (b : Block K V P) (toRead : List K) (snap : K → V)
+| writing   (b : Block K V P) (pending : List (K × V)) (cont : P)
 
-abbrev Thread (P : Type) := Phase P
+abbrev Thread (K V P : Type) := Phase K V P
 
-def holdsIn (t : Thread P) (k : Key) : Option Mode :=
+def holdsIn (t : Thread K V P) (k : K) : Option Mode :=
   match t with
   | .idle _ => none
   | .acquiring b held _ => if k ∈ held then some b.mode else none
   | .reading b _ _ => if k ∈ b.keys then some b.mode else none
   | .writing b _ _ => if k ∈ b.keys then some b.mode else none
 
-def pendVal : List (Key × Nat) → Key → Option Nat
+def pendVal : List (K × V) → K → Option V
 | [], _ => none
 | (k0, v0) :: r, k => match pendVal r k with
     | some x => some x
     | none => if k0 = k then some v0 else none
 
-def pend (t : Thread P) (k : Key) : Option Nat :=
+def pend (t : Thread K V P) (k : K) : Option V :=
   match t with
   | .writing _ p _ => pendVal p k
   | _ => none
 
-def applyWrites (db : Key → Nat) (ws : List (Key × Nat)) : Key → Nat :=
+def applyWrites (db : K → V) (ws : List (K × V)) : K → V :=
   fun k => match pendVal ws k with | some v => v | none => db k
 
 variable {n : Nat}
-structure Conc (P : Type) (n : Nat) where
-  db : Key → Nat
-  th : Fin n → Thread P
+structure Conc (K V P : Type) (n : Nat) where
+  db : K → V
+  th : Fin n → Thread K V P
 
 def setT {α : Type} (th : Fin n → α) (i : Fin n) (t : α) : Fin n → α := fun j => if j = i then t else th j
-def setK (db : Key → Nat) (k : Key) (v : Nat) : Key → Nat := fun k' => if k' = k then v else db k'
+def setK (db : K → V) (k : K) (v : V) : K → V := fun k' => if k' = k then v else db k'
 
-def canAcquire (c : Conc P n) (i : Fin n) (m : Mode) (k : Key) : Prop :=
+def canAcquire (c : Conc K V P n) (i : Fin n) (m : Mode) (k : K) : Prop :=
   ∀ j, j ≠ i → match holdsIn (c.th j) k with
     | none => True
     | some .R => m = .R
@@ -65,43 +68,43 @@ def canAcquire (c : Conc P n) (i : Fin n) (m : Mode) (k : Key) : Prop :=
 
 /-- micro-steps, relative to `view` (the next block of a program, `none` when it has finished);
     the label carries the thread whose block is linearized by this step, if any -/
-inductive Step (view : P → Option (Block P)) : Conc P n → Option (Fin n) → Conc P n → Prop
-| start (c : Conc P n) (i p b) (h : c.th i = .idle p) (hv : view p = some b) :
+inductive Step (view : P → Option (Block K V P)) : Conc K V P n → Option (Fin n) → Conc K V P n → Prop
+| start (c : Conc K V P n) (i p b) (h : c.th i = .idle p) (hv : view p = some b) :
     Step view c none ⟨c.db, setT c.th i (.acquiring b [] b.keys)⟩
-| acquire (c : Conc P n) (i b held k todo) (h : c.th i = .acquiring b held (k :: todo))
+| acquire (c : Conc K V P n) (i b held k todo) (h : c.th i = .acquiring b held (k :: todo))
     (hc : canAcquire c i b.mode k) :
     Step view c none ⟨c.db, setT c.th i (.acquiring b (k :: held) todo)⟩
-| beginRead (c : Conc P n) (i b held) (h : c.th i = .acquiring b held []) :
-    Step view c none ⟨c.db, setT c.th i (.reading b b.keys (fun _ => 0))⟩
-| read (c : Conc P n) (i b k r snap) (h : c.th i = .reading b (k :: r) snap) :
+| beginRead (c : Conc K V P n) (i b held) (h : c.th i = .acquiring b held []) :
+    Step view c none ⟨c.db, setT c.th i (.reading b b.keys (fun _ => default))⟩
+| read (c : Conc K V P n) (i b k r snap) (h : c.th i = .reading b (k :: r) snap) :
     Step view c none ⟨c.db, setT c.th i (.reading b r (setK snap k (c.db k)))⟩
-| commit (c : Conc P n) (i b snap) (h : c.th i = .reading b [] snap) :
+| commit (c : Conc K V P n) (i b snap) (h : c.th i = .reading b [] snap) :
     Step view c (some i) ⟨c.db, setT c.th i (.writing b (b.body snap) (b.next snap))⟩
-| write (c : Conc P n) (i b k v r cont) (h : c.th i = .writing b ((k, v) :: r) cont) :
+| write (c : Conc K V P n) (i b k v r cont) (h : c.th i = .writing b ((k, v) :: r) cont) :
     Step view c none ⟨setK c.db k v, setT c.th i (.writing b r cont)⟩
-| release (c : Conc P n) (i b cont) (h : c.th i = .writing b [] cont) :
+| release (c : Conc K V P n) (i b cont) (h : c.th i = .writing b [] cont) :
     Step view c none ⟨c.db, setT c.th i (.idle cont)⟩
 
 /-- the atomic (block-level) semantics: database and remaining program of every thread -/
-structure Abs (P : Type) (n : Nat) where
-  db : Key → Nat
+structure Abs (K V P : Type) (n : Nat) where
+  db : K → V
   pr : Fin n → P
 
-def absStep (view : P → Option (Block P)) (a : Abs P n) : Option (Fin n) → Abs P n
+def absStep (view : P → Option (Block K V P)) (a : Abs K V P n) : Option (Fin n) → Abs K V P n
 | none => a
 | some i => match view (a.pr i) with
     | some b => ⟨applyWrites a.db (b.body a.db), setT a.pr i (b.next a.db)⟩
     | none => a
 
 /-- how a thread's phase relates to its abstract remaining program -/
-def ProgRel (view : P → Option (Block P)) (t : Thread P) (p : P) : Prop :=
+def ProgRel (view : P → Option (Block K V P)) (t : Thread K V P) (p : P) : Prop :=
   match t with
   | .idle q => p = q
   | .acquiring b _ _ => view p = some b
   | .reading b _ _ => view p = some b
   | .writing _ _ cont => p = cont
 
-structure Inv (view : P → Option (Block P)) (Good : P → Prop) (c : Conc P n) (a : Abs P n) : Prop where
+structure Inv (view : P → Option (Block K V P)) (Good : P → Prop) (c : Conc K V P n) (a : Abs K V P n) : Prop where
   good  : ∀ i, Good (a.pr i)
   prel  : ∀ i, ProgRel view (c.th i) (a.pr i)
   excl  : ∀ i j k, i ≠ j → holdsIn (c.th i) k = some .W → holdsIn (c.th j) k = none
@@ -112,13 +115,13 @@ structure Inv (view : P → Option (Block P)) (Good : P → Prop) (c : Conc P n)
   acq   : ∀ i b held todo, c.th i = .acquiring b held todo → ∀ k ∈ b.keys, k ∈ held ∨ k ∈ todo
 
 /-- `Good` programs: the next block is well-formed and every continuation is good again -/
-def Closed (view : P → Option (Block P)) (Good : P → Prop) : Prop :=
+def Closed (view : P → Option (Block K V P)) (Good : P → Prop) : Prop :=
   ∀ p b, Good p → view p = some b → b.WF ∧ ∀ s, Good (b.next s)
 
 @[simp] theorem setT_same {α : Type} (th : Fin n → α) (i : Fin n) (t : α) : setT th i t i = t := by simp [setT]
 theorem setT_other {α : Type} (th : Fin n → α) {i j : Fin n} (t : α) (h : j ≠ i) : setT th i t j = th j := by simp [setT, h]
 
-theorem pendVal_mem {p : List (Key × Nat)} {k v} (h : pendVal p k = some v) : (k, v) ∈ p := by
+theorem pendVal_mem {p : List (K × V)} {k v} (h : pendVal p k = some v) : (k, v) ∈ p := by
   induction p with
   | nil => simp [pendVal] at h
   | cons a r ih =>
@@ -132,10 +135,10 @@ theorem pendVal_mem {p : List (Key × Nat)} {k v} (h : pendVal p k = some v) : (
       · simp [hk] at h; subst h; subst hk; simp
       · simp [hk] at h
 
-variable {view : P → Option (Block P)} {Good : P → Prop}
+variable {view : P → Option (Block K V P)} {Good : P → Prop}
 
 /-- a thread with a pending write on k holds k in W -/
-theorem pend_holds {c : Conc P n} {a} (h : Inv view Good c a) {i k v} (hp : pend (c.th i) k = some v) :
+theorem pend_holds {c : Conc K V P n} {a} (h : Inv view Good c a) {i k v} (hp : pend (c.th i) k = some v) :
     holdsIn (c.th i) k = some .W := by
   rcases hti : c.th i with _ | _ | _ | ⟨b, p, cont⟩
   · rw [hti] at hp; simp [pend] at hp
@@ -148,7 +151,7 @@ theorem pend_holds {c : Conc P n} {a} (h : Inv view Good c a) {i k v} (hp : pend
 
 /-- generic frame lemma: thread i changes to t' with the same pending values and the same abstract program;
     db unchanged. Used for start/beginRead/release/acquire/read. -/
-theorem inv_frame {c : Conc P n} {a} (h : Inv view Good c a) (i : Fin n) (t' : Thread P)
+theorem inv_frame {c : Conc K V P n} {a} (h : Inv view Good c a) (i : Fin n) (t' : Thread K V P)
     (hprel : ProgRel view t' (a.pr i))
     (hpend : ∀ k, pend t' k = pend (c.th i) k)
     (hexclW : ∀ k, holdsIn t' k = some .W → ∀ j, j ≠ i → holdsIn (c.th j) k = none)
@@ -200,7 +203,7 @@ theorem inv_frame {c : Conc P n} {a} (h : Inv view Good c a) (i : Fin n) (t' : T
     · subst hji; simp only [setT_same] at hj; exact hacq b held todo hj
     · simp only [setT_other _ _ hji] at hj; exact h.acq j b held todo hj
 
-theorem sim_start {c : Conc P n} {a} (h : Inv view Good c a) (i p b) (hi : c.th i = .idle p) (hv : view p = some b) :
+theorem sim_start {c : Conc K V P n} {a} (h : Inv view Good c a) (i p b) (hi : c.th i = .idle p) (hv : view p = some b) :
     Inv view Good ⟨c.db, setT c.th i (.acquiring b [] b.keys)⟩ a := by
   have hp : a.pr i = p := by have := h.prel i; rw [hi] at this; exact this
   apply inv_frame h i
@@ -212,7 +215,7 @@ theorem sim_start {c : Conc P n} {a} (h : Inv view Good c a) (i p b) (hi : c.th 
   · intro b' tr sn he; cases he
   · intro b' held todo he k hk; cases he; exact Or.inr hk
 
-theorem sim_release {c : Conc P n} {a} (h : Inv view Good c a) (i b cont) (hi : c.th i = .writing b [] cont) :
+theorem sim_release {c : Conc K V P n} {a} (h : Inv view Good c a) (i b cont) (hi : c.th i = .writing b [] cont) :
     Inv view Good ⟨c.db, setT c.th i (.idle cont)⟩ a := by
   have hp : a.pr i = cont := by have := h.prel i; rw [hi] at this; exact this
   apply inv_frame h i
@@ -224,14 +227,14 @@ theorem sim_release {c : Conc P n} {a} (h : Inv view Good c a) (i b cont) (hi : 
   · intro b' tr sn he; cases he
   · intro b' held todo he; cases he
 
-theorem sim_beginRead {c : Conc P n} {a} (h : Inv view Good c a) (i b held) (hi : c.th i = .acquiring b held []) :
-    Inv view Good ⟨c.db, setT c.th i (.reading b b.keys (fun _ => 0))⟩ a := by
+theorem sim_beginRead {c : Conc K V P n} {a} (h : Inv view Good c a) (i b held) (hi : c.th i = .acquiring b held []) :
+    Inv view Good ⟨c.db, setT c.th i (.reading b b.keys (fun _ => default))⟩ a := by
   have hp : view (a.pr i) = some b := by have := h.prel i; rw [hi] at this; exact this
   have hsub : ∀ k ∈ b.keys, k ∈ held := fun k hk => by
     rcases h.acq i b held [] hi k hk with h1 | h1
     · exact h1
     · cases h1
-  have hold : ∀ k m, holdsIn (.reading b b.keys (fun _ => 0) : Thread P) k = some m → holdsIn (c.th i) k = some m := by
+  have hold : ∀ k m, holdsIn (.reading b b.keys (fun _ => default) : Thread K V P) k = some m → holdsIn (c.th i) k = some m := by
     intro k m hk
     simp only [holdsIn] at hk
     split at hk
@@ -248,11 +251,11 @@ theorem sim_beginRead {c : Conc P n} {a} (h : Inv view Good c a) (i b held) (hi 
   · intro b' tr sn he k hk hnk; cases he; exact absurd hk hnk
   · intro b' held todo he; cases he
 
-theorem sim_acquire {c : Conc P n} {a} (h : Inv view Good c a) (i b held k todo)
+theorem sim_acquire {c : Conc K V P n} {a} (h : Inv view Good c a) (i b held k todo)
     (hi : c.th i = .acquiring b held (k :: todo)) (hc : canAcquire c i b.mode k) :
     Inv view Good ⟨c.db, setT c.th i (.acquiring b (k :: held) todo)⟩ a := by
   have hp : view (a.pr i) = some b := by have := h.prel i; rw [hi] at this; exact this
-  have hnew : ∀ k' m, holdsIn (.acquiring b (k :: held) todo : Thread P) k' = some m →
+  have hnew : ∀ k' m, holdsIn (.acquiring b (k :: held) todo : Thread K V P) k' = some m →
       m = b.mode ∧ (k' = k ∨ holdsIn (c.th i) k' = some m) := by
     intro k' m hk
     simp only [holdsIn] at hk
@@ -293,11 +296,11 @@ theorem sim_acquire {c : Conc P n} {a} (h : Inv view Good c a) (i b held k todo)
       · exact Or.inl (by simp [h2])
       · exact Or.inr h2
 
-theorem sim_read {c : Conc P n} {a} (h : Inv view Good c a) (i b k r sn)
+theorem sim_read {c : Conc K V P n} {a} (h : Inv view Good c a) (i b k r sn)
     (hi : c.th i = .reading b (k :: r) sn) :
     Inv view Good ⟨c.db, setT c.th i (.reading b r (setK sn k (c.db k)))⟩ a := by
   have hp : view (a.pr i) = some b := by have := h.prel i; rw [hi] at this; exact this
-  have hold : ∀ k' , holdsIn (.reading b r (setK sn k (c.db k)) : Thread P) k' = holdsIn (c.th i) k' := by
+  have hold : ∀ k' , holdsIn (.reading b r (setK sn k (c.db k)) : Thread K V P) k' = holdsIn (c.th i) k' := by
     intro k'; simp [holdsIn, hi]
   apply inv_frame h i
   · exact hp
@@ -329,7 +332,7 @@ theorem sim_read {c : Conc P n} {a} (h : Inv view Good c a) (i b k r sn)
       exact h.snap i b (k :: r) sn hi k' hk' (by simp [hkk, hnr])
   · intro b' held todo he; cases he
 
-theorem sim_commit (hcl : Closed view Good) {c : Conc P n} {a} (h : Inv view Good c a) (i b sn)
+theorem sim_commit (hcl : Closed view Good) {c : Conc K V P n} {a} (h : Inv view Good c a) (i b sn)
     (hi : c.th i = .reading b [] sn) :
     Inv view Good ⟨c.db, setT c.th i (.writing b (b.body sn) (b.next sn))⟩ (absStep view a (some i)) := by
   have hp : view (a.pr i) = some b := by have := h.prel i; rw [hi] at this; exact this
@@ -409,7 +412,7 @@ theorem sim_commit (hcl : Closed view Good) {c : Conc P n} {a} (h : Inv view Goo
     · subst hji; simp only [setT_same] at hj; cases hj
     · simp only [setT_other _ _ hji] at hj; exact h.acq j b' held todo hj
 
-theorem sim_write {c : Conc P n} {a} (h : Inv view Good c a) (i b k v r cont)
+theorem sim_write {c : Conc K V P n} {a} (h : Inv view Good c a) (i b k v r cont)
     (hi : c.th i = .writing b ((k, v) :: r) cont) :
     Inv view Good ⟨setK c.db k v, setT c.th i (.writing b r cont)⟩ a := by
   have hp : a.pr i = cont := by have := h.prel i; rw [hi] at this; exact this
@@ -468,7 +471,7 @@ theorem sim_write {c : Conc P n} {a} (h : Inv view Good c a) (i b k v r cont)
     · simp only [setT_other _ _ hji] at hj; exact h.acq j b' held todo hj
 
 /-- forward simulation: every micro-step is matched by the atomic block semantics, programs included -/
-theorem simulation (hcl : Closed view Good) {c c' : Conc P n} {a lin} (h : Inv view Good c a) (st : Step view c lin c') :
+theorem simulation (hcl : Closed view Good) {c c' : Conc K V P n} {a lin} (h : Inv view Good c a) (st : Step view c lin c') :
     Inv view Good c' (absStep view a lin) := by
   cases st with
   | start i p b hi hv => exact sim_start h i p b hi hv
@@ -480,16 +483,16 @@ theorem simulation (hcl : Closed view Good) {c c' : Conc P n} {a lin} (h : Inv v
   | release i b cont hi => exact sim_release h i b cont hi
 
 /-- executions and their linearization traces -/
-inductive Exec (view : P → Option (Block P)) : Conc P n → List (Fin n) → Conc P n → Prop
+inductive Exec (view : P → Option (Block K V P)) : Conc K V P n → List (Fin n) → Conc K V P n → Prop
 | refl (c) : Exec view c [] c
 | step {c c' c'' lin tr} : Step view c lin c' → Exec view c' tr c'' → Exec view c (lin.toList ++ tr) c''
 
 /-- running the atomic semantics along a linearization order -/
-def absRun (view : P → Option (Block P)) (a : Abs P n) : List (Fin n) → Abs P n
+def absRun (view : P → Option (Block K V P)) (a : Abs K V P n) : List (Fin n) → Abs K V P n
 | [] => a
 | i :: r => absRun view (absStep view a (some i)) r
 
-theorem exec_sim (hcl : Closed view Good) {c c' : Conc P n} {tr} (e : Exec view c tr c') :
+theorem exec_sim (hcl : Closed view Good) {c c' : Conc K V P n} {tr} (e : Exec view c tr c') :
     ∀ a, Inv view Good c a → Inv view Good c' (absRun view a tr) := by
   induction e with
   | refl c => intro a h; exact h
@@ -501,8 +504,8 @@ theorem exec_sim (hcl : Closed view Good) {c c' : Conc P n} {tr} (e : Exec view 
     | some i => simpa [absRun] using ih _ h'
 
 /-- initially every thread is idle with its whole program ahead -/
-theorem inv_init (db : Key → Nat) (pr : Fin n → P) (hg : ∀ i, Good (pr i)) :
-    Inv view Good (⟨db, fun i => .idle (pr i)⟩ : Conc P n) ⟨db, pr⟩ := by
+theorem inv_init (db : K → V) (pr : Fin n → P) (hg : ∀ i, Good (pr i)) :
+    Inv view Good (⟨db, fun i => .idle (pr i)⟩ : Conc K V P n) ⟨db, pr⟩ := by
   refine ⟨hg, fun i => rfl, ?_, ?_, ?_, ?_, ?_, ?_⟩
   · intro i j k _ h; simp [holdsIn] at h
   · intro i b p cont h; cases h
@@ -514,8 +517,8 @@ theorem inv_init (db : Key → Nat) (pr : Fin n → P) (hg : ∀ i, Good (pr i))
 /-- **atomicity**: if a micro-step execution from idle threads reaches a quiescent state, then running the blocks
     atomically in the order of their commit points yields the same database and the same remaining programs
     (so the same replies, which are the `done` programs) -/
-theorem atomicity (hcl : Closed view Good) (db : Key → Nat) (pr : Fin n → P) (hg : ∀ i, Good (pr i))
-    {c' : Conc P n} {tr} (e : Exec view ⟨db, fun i => .idle (pr i)⟩ tr c') (q : Fin n → P)
+theorem atomicity (hcl : Closed view Good) (db : K → V) (pr : Fin n → P) (hg : ∀ i, Good (pr i))
+    {c' : Conc K V P n} {tr} (e : Exec view ⟨db, fun i => .idle (pr i)⟩ tr c') (q : Fin n → P)
     (hq : ∀ i, c'.th i = .idle (q i)) :
     (absRun view ⟨db, pr⟩ tr).db = c'.db ∧ (absRun view ⟨db, pr⟩ tr).pr = q := by
   have h := exec_sim hcl e _ (inv_init (view := view) db pr hg)
